@@ -6,6 +6,7 @@ import (
 	"context"
 	"errors"
 	"fmt"
+	"io"
 	"runtime"
 	"strings"
 	"sync"
@@ -28,6 +29,28 @@ func init() {
 
 var errInjected = errors.New("injected storage failure: connection refused")
 
+// the kinds of error a database driver hands up: a storage failure is a storage failure whatever its type; in
+// particular one that merely LOOKS like a cancellation / timeout / not-found while the request is alive
+var injectedKinds = []error{
+	errInjected,
+	fmt.Errorf("driver: bad connection: %w", context.Canceled),
+	fmt.Errorf("statement timeout: %w", context.DeadlineExceeded),
+	io.ErrUnexpectedEOF,
+	fmt.Errorf("pq: the database system is shutting down: %w", errInjected),
+}
+
+// (not-found errors are deliberately not among them: the engine documents herodot.ErrNotFound from a traversal as
+// "nothing there", that is a result, not a failure)
+
+func kindOf(k int, persistent bool) int {
+	if persistent {
+		return 0
+	}
+	return k
+}
+
+func (p *storagePlan) err() error { return injectedKinds[p.kind%len(injectedKinds)] }
+
 // storagePlan decides, per storage operation (numbered in the order they are issued), whether it fails,
 // and can cancel the request after a given operation.
 type storagePlan struct {
@@ -37,6 +60,7 @@ type storagePlan struct {
 	persistent bool // and every later one
 	cancelAt   int  // cancel the request context when the cancelAt-th operation is issued
 	cancel     context.CancelFunc
+	kind       int // which of injectedKinds a failing operation returns
 }
 
 func (p *storagePlan) hit() bool {
@@ -60,13 +84,13 @@ type fManager struct {
 
 func (m *fManager) GetRelationTuples(ctx context.Context, q *relationtuple.RelationQuery, o ...x.PaginationOptionSetter) ([]*relationtuple.RelationTuple, string, error) {
 	if m.p.hit() {
-		return nil, "", errInjected
+		return nil, "", m.p.err()
 	}
 	return m.Manager.GetRelationTuples(ctx, q, o...)
 }
 func (m *fManager) ExistsRelationTuples(ctx context.Context, q *relationtuple.RelationQuery) (bool, error) {
 	if m.p.hit() {
-		return false, errInjected
+		return false, m.p.err()
 	}
 	return m.Manager.ExistsRelationTuples(ctx, q)
 }
@@ -78,13 +102,13 @@ type fTraverser struct {
 
 func (t *fTraverser) TraverseSubjectSetExpansion(ctx context.Context, tu *relationtuple.RelationTuple) ([]*relationtuple.TraversalResult, error) {
 	if t.p.hit() {
-		return nil, errInjected
+		return nil, t.p.err()
 	}
 	return t.Traverser.TraverseSubjectSetExpansion(ctx, tu)
 }
 func (t *fTraverser) TraverseSubjectSetRewrite(ctx context.Context, tu *relationtuple.RelationTuple, rels []string) ([]*relationtuple.TraversalResult, error) {
 	if t.p.hit() {
-		return nil, errInjected
+		return nil, t.p.err()
 	}
 	return t.Traverser.TraverseSubjectSetRewrite(ctx, tu, rels)
 }
@@ -166,7 +190,7 @@ func suiteFault(t *testing.T, cfg cfgT) {
 			}
 			for k := 1; k <= n; k++ {
 				for _, persistent := range []bool{false, true} {
-					p := &storagePlan{failAt: k, persistent: persistent}
+					p := &storagePlan{failAt: k, persistent: persistent, kind: kindOf(k, persistent)}
 					obs, _, _ := ee.runPlan(q, 0, p, 20*time.Second)
 					mode := "transient"
 					if persistent {
@@ -359,7 +383,7 @@ func faultCorpus(t *testing.T, out *sink) int {
 			out.emit(fmt.Sprintf("echeck %s %d", fmtTuple(q), 0), obs0)
 			for k := 1; k <= base.count(); k++ {
 				for _, persistent := range []bool{false, true} {
-					obs, _, _ := ee.runPlan(q, 0, &storagePlan{failAt: k, persistent: persistent}, 20*time.Second)
+					obs, _, _ := ee.runPlan(q, 0, &storagePlan{failAt: k, persistent: persistent, kind: kindOf(k, persistent)}, 20*time.Second)
 					mode := "transient"
 					if persistent {
 						mode = "persistent"
